@@ -54,8 +54,8 @@ CLAIMS = {
       "TLC checks the call design (duplexHTTPCall + transport + handler program) for every client program within the bounds; client programs enumerated as TLC paths (Gen_Call.tla, no application-level circular wait) x handler programs x protocols run against a real loopback HTTP/2 server; each operation under a watchdog; the recorded call / return events must be a behaviour of Call.tla with transport, server and handler inferred as silent steps; afterwards no labelled goroutine may be inside the library and the response body must have been closed; body closing for rejected responses is checked in C06's runs.",
       "The environment half of Call.tla is a superset model of net/http of the Go toolchain in this sandbox.", "6 C14"),
   "C15": claim("Call.tla / TraceCall.tla: cancellation and expiry as model actions at every instant",
-      "cancel() and deadline expiry before the call, between any two operations and during a blocked operation (fired 40 ms into it) x client programs x handler programs (incl. a handler that stalls until its context ends and returns the context's error) x protocols over loopback HTTP/2; every operation that fails afterwards must return canceled / deadline_exceeded (a Send may report the stream-closed EOF), never success or another code.",
-      "Known finding (open): cancellation is not noticed while the HTTP/2 request side is open and idle.", "6 C15"),
+      "cancel() and deadline expiry before the call, between any two operations and during a blocked operation (fired 40 ms into it) x client programs x handler programs (incl. a handler that stalls until its context ends and returns the context's error) x protocols x {bidi, server-streaming, client-streaming API} over loopback HTTP/2 (and HTTP/1.1 for the half-duplex kinds); every operation that fails afterwards must return canceled / deadline_exceeded (a Send may report the stream-closed EOF), never success or another code.",
+      "The environment half of Call.tla is a superset model of net/http of the Go toolchain in this sandbox; 'during' means 40 ms into a blocked operation.", "6 C15"),
   "C16": claim("Options.tla (DeclarationOrder, ExactlyOnce) / TraceOptions.tla: " + PIPE,
       "Every option tree (lists of up to 3 / 4 distinct interceptors with nil anywhere, every composition into WithInterceptors groups, groups wrapped in WithOptions / WithClientOptions / WithHandlerOptions, outer group, empty WithInterceptors()) x {client, handler} x {unary, stream} is built with the real constructors, applied twice, and one real call is made; the recorded order of every layer (entry, exit, send, receive) must be the onion Options.tla computes.",
       "", "6 C16"),
